@@ -618,7 +618,7 @@ class Fn:
         return d
 
     # ---- guards ------------------------------------------------------------
-    def guards(self, bb):
+    def guards(self, bb, _depth=0):
         """Conditions known to hold on entry to `bb`: list of Guard for each dominating
         SwitchInt of which exactly one outgoing value-class can reach bb."""
         dom = self.dominators()
@@ -647,7 +647,51 @@ class Fn:
             is_other = (tb == other)
             excluded = [v for t2, vs in targets.items() if t2 != tb for v in vs] if is_other else []
             out.append(Guard(self, d, t[1], vals if not is_other or vals else None, excluded, t[5] if len(t) > 5 else None))
+        if _depth < 3:
+            out.extend(self._implied_guards(out, _depth))
         return out
+
+    def _implied_guards(self, guards, depth):
+        """Value-flow refinement: a guard on a multiply-defined bool local (`let p = !a || !b; if p {..}`
+        lowers to two definitions of p under a branch on `a`) implies the branch conditions of the only
+        definition that can have produced the observed value."""
+        extra = []
+        for g in guards:
+            op = g.discr
+            if op[0] not in ('c', 'm') or len(op[1]) != 1:
+                continue
+            t = g.truth()
+            if t is None:
+                continue
+            local = op[1][0]
+            ds = [d for d in self.defs().get(local, []) if len(d[4]) == 1]
+            hops = 0
+            while (len(ds) == 1 and ds[0][2] == 'rv' and ds[0][3][0] == 'use' and ds[0][3][1][0] in ('c', 'm')
+                   and len(ds[0][3][1][1]) == 1 and hops < 6 and not (1 <= ds[0][3][1][1][0] <= self.argc)):
+                local = ds[0][3][1][1][0]
+                ds = [d for d in self.defs().get(local, []) if len(d[4]) == 1]
+                hops += 1
+            if len(ds) < 2:
+                # single definition by Not / copy: expose the operand as a guard as well
+                survivors = ds
+            else:
+                survivors = []
+                for d in ds:
+                    if d[2] == 'rv' and d[3][0] == 'use' and d[3][1][0] == 'k':
+                        cv = const_int(d[3][1][1])
+                        if cv is not None and bool(cv) != t:
+                            continue   # this definition cannot have produced the observed value
+                    survivors.append(d)
+            if len(survivors) != 1:
+                continue
+            d = survivors[0]
+            if len(ds) >= 2:
+                extra.extend(self.guards(d[0], _depth=depth + 1))
+            if d[2] == 'rv' and d[3][0] == 'un' and d[3][1] == 'Not':
+                extra.append(Guard(self, d[0], d[3][2], [0] if t else [1], [], g.line))
+            elif d[2] == 'rv' and d[3][0] == 'use' and d[3][1][0] in ('c', 'm') and len(ds) >= 2:
+                extra.append(Guard(self, d[0], d[3][1], [1] if t else [0], [], g.line))
+        return extra
 
     # ---- provenance ----------------------------------------------------------
     def origins(self, op, depth=40, _seen=None):
